@@ -31,10 +31,17 @@ static std::string exec_case(const Args &a) {
         size_t max = (size_t)a.num("max");
         std::string sepb = parse_bytes(a.get("sep"));
         return guarded([&]() -> std::string {
-            if (form == "char") return show_vec(s.split(sepb.empty() ? (char)0 : sepb[0], max, cs));
-            if (form == "cstr") { CStr c(sepb); return show_vec(s.split(c.p, max, cs)); }
+            // calls that omit max_splits (unlimited) and / or the case mode (case_sensitive) must agree with the explicit call
+            bool dcs = cs == ST::case_sensitive, dmax = max == ST_AUTO_SIZE;
+            auto chk = [&](const std::vector<ST::string> &with, auto without_cs, auto without_both) {
+                if (dcs && !(with == without_cs())) default_mismatch() = true;
+                if (dcs && dmax && !(with == without_both())) default_mismatch() = true;
+                return show_vec(with);
+            };
+            if (form == "char") { char ch = sepb.empty() ? (char)0 : sepb[0]; return chk(s.split(ch, max, cs), [&] { return s.split(ch, max); }, [&] { return s.split(ch); }); }
+            if (form == "cstr") { CStr c(sepb); return chk(s.split(c.p, max, cs), [&] { return s.split(c.p, max); }, [&] { return s.split(c.p); }); }
             ST::string sep = raw_string(sepb);
-            return show_vec(s.split(sep, max, cs));
+            return chk(s.split(sep, max, cs), [&] { return s.split(sep, max); }, [&] { return s.split(sep); });
         });
     }
     if (op == "sp.tok") {
@@ -56,6 +63,12 @@ static std::string exec_case(const Args &a) {
             else if (ff != "str") r = s.replace(fp, raw_string(tb), cs, m);
             else if (tf != "str") r = s.replace(raw_string(fb), tp, cs, m);
             else r = s.replace(raw_string(fb), raw_string(tb), cs);
+            // the defaulted forms: case_sensitive, ST_DEFAULT_VALIDATION
+            if (cs == ST::case_sensitive) {
+                bool dm = m == ST_DEFAULT_VALIDATION;
+                if (ff != "str" && tf != "str") { if (dm && (!(r == s.replace(fp, tp, cs)) || !(r == s.replace(fp, tp)))) default_mismatch() = true; }
+                else if (ff == "str" && tf == "str") { if (!(r == s.replace(raw_string(fb), raw_string(tb)))) default_mismatch() = true; }
+            }
             if (r.c_str()[r.size()] != 0) return "!noterm";
             return "ok " + hex_units(r.c_str(), r.size());
         });
